@@ -10,12 +10,16 @@ def run(prog, rep, tier):
                   "sentinel as a success; capture_errors catches std::exception and (...) and stores the error through allocate_error; "
                   "B2: the 76 exported functions without an error parameter cannot unwind (least fixpoint of may-throw over all 2500 functions and "
                   "lambdas, virtual calls resolved to all overriders, function pointers to address-taken functions of the same signature); "
+                  "B3: parse_subquery returns the tree only along the yyparse()==0 edge and every other outcome reaches a throw (CFG reachability, "
+                  "if- and switch-forms); T1: no std::exception-derived object is constructed as a discarded expression statement (missing `throw`); "
                   "Y1: flex finds no matchable default rule and every start condition has an <<EOF>> rule; K3: CLI handlers exit 2.")
     rep.not_decided = ("hangs, reads beyond the given length inside the generated scanner, behaviour under allocation failure, and that error "
                        "messages are non-empty (run-time properties).")
     rep.assumptions += effects.ASSUMPTIONS + ["exemption edges of the may-throw analysis: %s" % ", ".join("%s->%s" % k for k in effects.NOTHROW_EDGES)]
     apply(rep, "B1", "capture_errors wrap discipline", r_api.b1(prog), 25)
     apply(rep, "B2", "no unwinding out of entry points without error parameter", r_api.b2(prog), 60)
+    apply(rep, "B3", "the parse tree is handed out only on yyparse success", r_api.b3(prog), 1)
+    apply(rep, "T1", "no exception object is constructed and discarded", r_api.t1(prog), 1)
     apply(rep, "Y1", "scanner completeness", r_lex.y1(prog), 4)
     apply(rep, "K3", "CLI maps every exception to exit status 2", r_cli.k3(prog), 10)
     maybe_mutants("C14", rep, tier)
